@@ -233,10 +233,16 @@ pub fn run(ctx: &mut Ctx, replay: Option<&str>) {
             sel: sel.as_object().cloned().unwrap_or_default(),
             kb: None,
         };
-        let depths: &[usize] = if ctx.tier == Tier::Quick { &[33, 66, 100] } else { &[20, 33, 35, 63, 66, 90, 100, 110] };
+        // (beyond 126 levels the claims cannot even be parsed from JSON text by serde_json or by the model; built in memory and judged directly)
+        let depths: &[usize] = if ctx.tier == Tier::Quick { &[33, 66, 100, 135] } else { &[20, 33, 35, 63, 66, 90, 100, 110, 129, 135, 200] };
         for (di, d) in depths.iter().enumerate() {
             let claims = gen_deep_claims(&mut r, *d, now());
             for (si, st) in [Strategy::All, Strategy::Top].into_iter().enumerate() {
+                if *d > 120 && si > 0 {
+                    // a single disclosure holding more than 126 nested levels cannot be parsed back (serde_json's recursion
+                    // limit): only strategies that put every level into its own disclosure reach such depths
+                    continue;
+                }
                 for sel in [select_all(&claims), json!({}), json!({"deep": true, "flat": true})] {
                     let f = mk(claims.clone(), st.clone(), sel.clone(), di + si);
                     let e = expected_view(&claims, &sel, matches!(st, Strategy::All));
